@@ -377,7 +377,8 @@ def _single_classifier(run, ix):
             if st is None or not pv.cfg.nodes_of.get(id(st)):
                 continue
             n10 += 1
-            kw = next((k for k in c.keywords if k.arg == targets[nm]), None)
+            kwv = ix.call_args(c, nm).get(targets[nm])
+            kw = ast.keyword(arg=targets[nm], value=kwv) if kwv is not None else None
             if kw is None:
                 run.instance("R10", f.where, f"{f.qualname} -> {nm.split('.')[-1]}: every face is classified", True)
                 continue
@@ -436,7 +437,7 @@ def _assembly(run, ix):
     for c in ast.walk(mm_.node):
         if isinstance(c, ast.Call) and Vm.pv.callee(c.func) == "trimesh.intersections.mesh_plane":
             st_ = Vm.pv.stmt_of(c)
-            kw = {k.arg: Vm.value(k.value, st_) for k in c.keywords if k.arg}
+            kw = {k_: Vm.value(v_, st_) for k_, v_ in ix.call_args(c, "trimesh.intersections.mesh_plane").items()}
             if not {"plane_normal", "plane_origin"} <= set(kw):
                 continue
             n13 += 1
@@ -478,7 +479,7 @@ def _assembly(run, ix):
         st = pl.stmt_of(c)
         _, args, kw = pl.canon_call(c, st)
         e = kw.get("edges", args[0] if args else "")
-        ok = re.fullmatch(r"trimesh\.grouping\.unique_rows\(P_lines\.reshape\(\(-1, P_lines\.shape\[-1\]\)\), digits=[\w.]+\)\[1\]\.reshape\(\(-1, 2\)\)", e) is not None
+        ok = re.fullmatch(r"trimesh\.grouping\.unique_rows\(P_lines\.reshape\(\(-1, P_lines\.shape\[-1\]\)\), (?:digits=)?[\w.]+\)\[1\]\.reshape\(\(-1, 2\)\)", e) is not None
         filt = "require_count" in e or "group_rows" in e
         run.instance("R12", lp.where, f"edges handed to edges_to_path: `{e[:110]}`", ok)
         if not ok:
